@@ -58,7 +58,7 @@ def gen_program(seed: int, prop: str, run: int, profile: dict):
         max_steps=profile.get("prog_len", 12),
         ops_per_channel=(1, 4),
         n_channels=(1, 3),
-        chan_ops={"add": 10, "delay": 2, "target": 3, "phase_shift": 2, "align": 1, "enable_eom": 1},
+        chan_ops={"add": 10, "delay": 2, "target": 3, "phase_shift": 2, "align": 1, "enable_eom": profile.get("eom_w", 1)},
     )
     ctx = engine.Ctx(world, prof, [])
     st = engine.Stepper(ctx)
